@@ -235,10 +235,41 @@ fn c12_cases(out: &mut Out, r: &mut Rng, max_len: usize) {
     let nonce = g.r.bytes(32);
     reqs.push(ietf_request(&VER13, Some(&other), &nonce, 1024));
     // ragged VER (not a multiple of 4) cannot be encoded in an aligned message; VER with trailing half word is impossible on the wire
+    stale_state_cases(out, &mut g, &cfg, "c12");
     for chunk in reqs.chunks(40) {
         let burst: Vec<(usize, Vec<u8>)> = chunk.iter().cloned().enumerate().collect();
         let n = burst.len();
         run_scenario(out, Scenario { cfg: cfg.clone(), nclients: n, bursts: vec![burst], sentinel: false, tag: "c12".into(), pauses: vec![] });
+    }
+}
+
+/// Degenerate datagrams (no fields / one field / a required field missing, valid length and framing) sent right
+/// after valid requests of either protocol, in the same batch (batch_size 64) and in the next one (batch_size 1):
+/// only the valid ones may be answered — nothing a datagram lacks may be taken from an earlier one.
+fn stale_state_cases(out: &mut Out, g: &mut Gen, cfg: &RigCfg, tag: &str) {
+    for batch in [64u8, 1] {
+        let mut cfg = cfg.clone();
+        cfg.batch = batch;
+        for primer in 0..3 {
+            let mut burst: Vec<(usize, Vec<u8>)> = vec![];
+            let mut c = 0;
+            for k in 0..Gen::DEGENERATE_KINDS {
+                let n32 = g.r.bytes(32);
+                let n64 = g.r.bytes(64);
+                let srv = g.srv.clone();
+                let p = match primer {
+                    0 => ietf_request(&VER13, None, &n32, 1024),
+                    1 => ietf_request(&VER13, Some(&srv), &n32, 1024),
+                    _ => classic_request(&n64, 1024),
+                };
+                burst.push((c, p)); c += 1;
+                burst.push((c, g.degenerate(k))); c += 1;
+                burst.push((c, g.degenerate(k + 1))); c += 1;
+            }
+            let s = g.valid_any();
+            burst.push((c, s)); c += 1;
+            run_scenario(out, Scenario { cfg: cfg.clone(), nclients: c, bursts: vec![burst], sentinel: false, tag: tag.into(), pauses: vec![] });
+        }
     }
 }
 
@@ -303,6 +334,7 @@ fn c07_cases(out: &mut Out, r: &mut Rng, thorough: bool) {
         burst.push((n, s));
         run_scenario(out, Scenario { cfg: cfg.clone(), nclients: n + 1, bursts: vec![burst], sentinel: false, tag: "c07".into(), pauses: vec![] });
     }
+    stale_state_cases(out, &mut g, &cfg, "c07");
     // full batches of 64 (maximum path depth), all minimum-size requests
     for ietf in [false, true] {
         let burst: Vec<(usize, Vec<u8>)> = (0..64)
